@@ -14,7 +14,9 @@ func (r *Router) VerifCache() *cachedRoutes { return r.cachedRoutes }
 // first) together with the list length, the map size and the capacity.
 // It takes no lock: callers use it only while no request is in flight.
 func (c *cachedRoutes) VerifSnapshot() (keys []string, vals []*Route, listLen, mapLen, size int) {
-	for e := c.list.Front(); e != nil; e = e.Next() {
+	// bounded walk: a list corrupted by a race may be cyclic
+	limit := c.list.Len() + len(c.hashMap) + 8
+	for e := c.list.Front(); e != nil && len(keys) < limit; e = e.Next() {
 		n := e.Value.(*cacheNode)
 		keys = append(keys, n.Key)
 		vals = append(vals, n.Value)
